@@ -53,7 +53,29 @@ def impl_vs_ref(text: str, det: bool, tol: float):
     return dist_diff(dt, dr), dt, dr, info
 
 
-def run_cases(ctx, cases, det: bool, label: str, use_model=True, model_max=None, deadline=None):
+def elab_expected(text: str) -> bool:
+    """texts the elaboration of Proofs/ParseElab.v is meant to cover: everything the parse model reads except correlated-error
+    chains, MPP with a flip probability and an explicit non-positive flip probability of a measurement"""
+    import re
+    for line in text.split("\n"):
+        m = re.match(r"^\s*([A-Z_0-9a-z]+)(\[[^\]]*\])?(\(([^)]*)\))?", line)
+        if not m:
+            continue
+        name, args = m.group(1), m.group(4)
+        if name in ("E", "CORRELATED_ERROR", "ELSE_CORRELATED_ERROR"):
+            return False
+        if name == "MPP" and args is not None:
+            return False
+        if name in ("M", "MX", "MY", "MZ", "MR", "MRX", "MRY", "MRZ") and args is not None:
+            try:
+                if float(args) <= 0:
+                    return False
+            except ValueError:
+                return False
+    return True
+
+
+def run_cases(ctx, cases, det: bool, label: str, use_model=True, model_max=None, deadline=None, elab=False):
     """cases: list of (text, hist, generic).  Reports violations / broken ties on ctx. Returns stats."""
     import tsim
     stats = {"circuits": 0, "max_diff_impl_ref": 0.0, "max_diff_model_impl": 0.0, "model_compared": 0, "model_skipped": 0}
@@ -96,7 +118,7 @@ def run_cases(ctx, cases, det: bool, label: str, use_model=True, model_max=None,
     if use_model and model_usable(ctx) and keep:
         sub = keep if model_max is None else keep[:model_max]
         try:
-            res = model_eval([tsim.Circuit(t)._stim_circ for t, _, _ in sub], f"{ctx.pid.lower()}_{label}_model")
+            res = model_eval([tsim.Circuit(t)._stim_circ for t, _, _ in sub], f"{ctx.pid.lower()}_{label}_model", elab=elab)
         except Exception as e:
             ctx.broken.append(f"correspondence:model evaluation failed: {e!r}"[:400])
             res = []
@@ -112,6 +134,13 @@ def run_cases(ctx, cases, det: bool, label: str, use_model=True, model_max=None,
             except AssertionError as e:
                 ctx.broken.append(f"correspondence:model distribution undefined ({e}) on {text!r}"[:300])
                 continue
+            if elab:
+                exp = elab_expected(text)
+                key = "elab_covered" if r.get("covered") else ("elab_not_covered_expected" if not exp else "elab_NOT_COVERED_UNEXPECTEDLY")
+                stats[key] = stats.get(key, 0) + 1
+                if exp and not r.get("covered"):
+                    ctx.broken.append(f"correspondence:the parse model's lane program is no longer the lane program of the elaborated circuit "
+                                      f"(C01_parsed_text_is_kraus_product does not apply) on {text!r}"[:400])
             dd = dist_diff(dm, dt)
             stats["model_compared"] += 1
             stats["max_diff_model_impl"] = max(stats["max_diff_model_impl"], dd)
